@@ -16,17 +16,19 @@ import (
 	"github.com/bbva/qed/protocol"
 	"github.com/bbva/qed/storage"
 	"github.com/hashicorp/raft"
+	"google.golang.org/grpc"
 	"google.golang.org/grpc/metadata"
 )
 
-// ---- seams. bin/vcheck renames the production methods `propose` and `attemptToFetchSnapshot`
-// to `...VerifOrig` in the scratch tree (purely syntactic, fails loudly if the definitions are not
+// ---- seams. bin/vcheck renames the production method `propose` to `proposeVerifOrig` and redirects the
+// gRPC call inside `attemptToFetchSnapshot` in the scratch tree (purely syntactic, fails loudly if the definitions are not
 // found); the methods below take their place and fall through to the originals unless a harness
 // installed a hook on that node.
 
 type VerifHooks struct {
-	// Fetch replaces the gRPC call of a follower to the leader during Restore.
-	Fetch func(lastSeqNum, lastAppliedVersion, startSeqNum uint64) (io.ReadCloser, error)
+	// Fetch replaces the gRPC call of a follower to the leader during Restore: it receives the request
+	// the production code built and returns the stream the production chunk reader consumes.
+	Fetch func(req *FetchSnapshotRequest) (ClusterService_FetchSnapshotClient, error)
 	// Propose replaces raft.Apply.
 	Propose func(data []byte) (interface{}, error)
 }
@@ -52,11 +54,13 @@ func verifHooksOf(n *RaftNode) *VerifHooks {
 	return verifHooks[n]
 }
 
-func (n *RaftNode) attemptToFetchSnapshot(lastSeqNum, lastAppliedVersion uint64) (io.ReadCloser, error) {
+// verifFetchRPC stands in front of the one gRPC call of attemptToFetchSnapshot (port/seams.py
+// redirects the call expression, whatever the enclosing function's signature is).
+func verifFetchRPC(n *RaftNode, c ClusterServiceClient, ctx context.Context, req *FetchSnapshotRequest, opts ...grpc.CallOption) (ClusterService_FetchSnapshotClient, error) {
 	if h := verifHooksOf(n); h != nil && h.Fetch != nil {
-		return h.Fetch(lastSeqNum, lastAppliedVersion, n.db.LastWALSequenceNumber())
+		return h.Fetch(req)
 	}
-	return n.attemptToFetchSnapshotVerifOrig(lastSeqNum, lastAppliedVersion)
+	return c.FetchSnapshot(ctx, req, opts...)
 }
 
 func (n *RaftNode) propose(cmd *command) (interface{}, error) {
@@ -122,10 +126,13 @@ func (n *RaftNode) VerifCloseBare() {
 // ---- serving a state transfer in-process: the leader's real FetchSnapshot with a fake server stream
 
 type verifStream struct {
-	buf bytes.Buffer
+	chunks [][]byte
 }
 
-func (s *verifStream) Send(c *Chunk) error           { s.buf.Write(c.Content); return nil }
+func (s *verifStream) Send(c *Chunk) error {
+	s.chunks = append(s.chunks, append([]byte{}, c.Content...))
+	return nil
+}
 func (s *verifStream) SetHeader(metadata.MD) error   { return nil }
 func (s *verifStream) SendHeader(metadata.MD) error  { return nil }
 func (s *verifStream) SetTrailer(metadata.MD)        {}
@@ -133,20 +140,37 @@ func (s *verifStream) Context() context.Context      { return context.Background
 func (s *verifStream) SendMsg(m interface{}) error   { return nil }
 func (s *verifStream) RecvMsg(m interface{}) error   { return io.EOF }
 
-type verifReader struct{ *bytes.Reader }
-
-func (verifReader) Close() error { return nil }
-
-// VerifServeSnapshot runs the real RaftNode.FetchSnapshot of this (leader) node and returns the
-// stream a follower would read.
-func (n *RaftNode) VerifServeSnapshot(lastAppliedVersion, startSeqNum, endSeqNum uint64) (io.ReadCloser, error) {
+// VerifServeStream runs the real RaftNode.FetchSnapshot of this (leader) node for req and returns what
+// the follower's gRPC client stream would deliver: the chunks sent, then the handler's error (or EOF).
+func (n *RaftNode) VerifServeStream(req *FetchSnapshotRequest) (ClusterService_FetchSnapshotClient, error) {
 	st := &verifStream{}
-	err := n.FetchSnapshot(&FetchSnapshotRequest{LastAppliedVersion: lastAppliedVersion, StartSeqNum: startSeqNum, EndSeqNum: endSeqNum}, st)
-	if err != nil {
-		return nil, err
-	}
-	return verifReader{bytes.NewReader(st.buf.Bytes())}, nil
+	err := n.FetchSnapshot(req, st)
+	return &verifClientStream{chunks: st.chunks, err: err}, nil
 }
+
+type verifClientStream struct {
+	chunks [][]byte
+	i      int
+	err    error
+}
+
+func (s *verifClientStream) Recv() (*Chunk, error) {
+	if s.i < len(s.chunks) {
+		c := &Chunk{Content: s.chunks[s.i]}
+		s.i++
+		return c, nil
+	}
+	if s.err != nil {
+		return nil, s.err
+	}
+	return nil, io.EOF
+}
+func (s *verifClientStream) Header() (metadata.MD, error) { return nil, nil }
+func (s *verifClientStream) Trailer() metadata.MD         { return nil }
+func (s *verifClientStream) CloseSend() error             { return nil }
+func (s *verifClientStream) Context() context.Context     { return context.Background() }
+func (s *verifClientStream) SendMsg(m interface{}) error  { return nil }
+func (s *verifClientStream) RecvMsg(m interface{}) error  { return io.EOF }
 
 // VerifSnapshotBytes runs the real Snapshot()+Persist into a buffer.
 func (n *RaftNode) VerifSnapshotBytes() ([]byte, error) {
